@@ -73,7 +73,8 @@ def expected_write(key, value):
     if eff <= room: return "accept"
     # cfitsio squeezes "KEY = 'v'" to "KEY='v'" when the card would not fit otherwise: one or two more columns may or may not be
     # usable - not judged here; whether such a value survives is decided by the serialisation obligations
-    return "reject" if eff > room + 2 else None
+    # cfitsio squeezes "KEY = 'v'" to "KEY= 'v'" only (that step is in `room`); anything longer is truncated at column 80 by the installed library
+    return "reject"
 
 def run_history(hist):
     t0 = time.time(); tag = "history " + " ; ".join("%s(%s)" % (o[0], ",".join(repr(x)[:14] for x in o[1:])) for o in hist)
@@ -249,7 +250,6 @@ def main():
     rep.extra["rule"] = "one evaluation = one operation history executed from the extracted code and compared step by step with an ordered-map model; non-trivial = at least two operations; histories are distinct tuples"
     rep.assume("typed reads (read_key<T> through std::istringstream) are NOT covered; survival through a FITS round trip is checked against the cfitsio model (assumed contract, held to the installed cfitsio byte for byte by C06's conformance obligations)",
                "BOUNDED: enumerated / random operation histories over a small key and value alphabet (standard keys, HIERARCH key, reserved prefix, lower-case and punctuated keys, empty / quoted / over-long values)",
-               "KNOWN GAP: the cfitsio model's layout of HIERARCH cards at the 80-column limit (squeeze steps 'KEY = v' -> 'KEY= v' -> 'KEY=v') is an assumed contract that is more generous than the installed library for a value one column over the limit; together with the undecided band of the acceptance oracle the seeded change C16-m2 passes (DESIGN section D)",
                "the text of the value (operator<< of the value type) is a parameter (R23); allocation failure is not injected by this check (R22: catch(...) handlers with clean-up code dropped; R22e keeps the try block of write_key's update path, exercised with injected failures by C20); libc/ctype/std::copy semantics supplied by the interpreter",
                "acceptance oracle written from the property statement: reserved prefixes, lower-case/punctuated standard keys, '='/lower-case in long keys and clearly over-long values must be rejected; plain short keys with short values must be accepted; borderline lengths and '-'/'_' in standard keys are not judged",
                "the extraction to C does not type-check as C++: a separate native obligation instantiates every function under contract with g++ (this is how the uncompilable remove_key of the pinned tree shows up)")
